@@ -41,7 +41,7 @@ def znext (bs : Bytes) : Except ZErr (Option Bytes × Bytes) :=
       let len := asInt (tagLength t)
       -- `end := n + tagLength(u64); val := (*i)[n:end]; *i = (*i)[end:]`
       if len < 0 then .error .outOfRange
-      else if rest.length < len.toNat then .error .outOfRange
+      else if !hasLen rest len.toNat then .error .outOfRange
       else .ok (some (rest.take len.toNat), rest.drop len.toNat)
 
 theorem znext_progress (bs : Bytes) (v : Option Bytes) (r : Bytes)
@@ -58,7 +58,10 @@ theorem znext_progress (bs : Bytes) (v : Option Bytes) (r : Bytes)
       · cases h
       · split at h
         · cases h
-        · cases h; simp; omega
+        · rename_i hl
+          cases h
+          simp only [Bool.not_eq_true, Bool.not_eq_false'] at hl
+          simp; omega
 
 /-- Iterate to the end (`for !it.Done() { it.Next() }`).  Terminates because every `Next`
     consumes at least the tag byte (`znext_progress`). -/
